@@ -59,7 +59,7 @@ struct StreamRun
   std::atomic<uintptr_t> pbase{0}, cbase{0};
 
   // per side stats (merged after join)
-  uint64_t hard_stalls{0}, fulls{0}, empties{0}, exact_fits{0}, wraps{0}, max_occ{0}, stall_redraws{0}, multi_commits{0},
+  uint64_t hard_stalls{0}, fulls{0}, empties{0}, exact_fits{0}, wraps{0}, max_occ{0}, stall_redraws{0}, multi_commits{0}, fused_commits{0},
     double_checks{0}, bytes{0}, grants{0}, occ_hist[5]{};
   bool saw_full{false}, saw_empty{false};
 
@@ -191,6 +191,20 @@ struct StreamRun
         uint8_t* d = reinterpret_cast<uint8_t*>(p) + 8;
         for (uint32_t i = 0; i < n - 8; ++i) d[i] = pat(static_cast<uint32_t>(seq), i);
         jitter(r, cfg.jit);
+        if (b + 1 == batch && r.chance(1, 2))
+        {
+          // the fused call the Logger uses with bounded queues: finish and publish in one step
+          about_to_commit.store(seq + 1, std::memory_order_relaxed); // BEFORE the commit
+          q.finish_and_commit_write(static_cast<T>(n));
+          W += n;
+          bytes += n;
+          ++seq;
+          w_committed.store(W, std::memory_order_relaxed);
+          uncommitted = 0;
+          ++fused_commits;
+          jitter(r, cfg.jit);
+          continue;
+        }
         q.finish_write(static_cast<T>(n));
         W += n;
         bytes += n;
@@ -198,6 +212,7 @@ struct StreamRun
         ++uncommitted;
         jitter(r, cfg.jit);
       }
+      if (!uncommitted) continue;
       about_to_commit.store(seq, std::memory_order_relaxed); // BEFORE the commit
       q.commit_write();
       w_committed.store(W, std::memory_order_relaxed);
@@ -362,6 +377,7 @@ struct StreamRun
     g_stats.add("empty_returns", empties);
     g_stats.add("exact_fit_grants", exact_fits);
     g_stats.add("wrap_crossing_records", wraps);
+    g_stats.add("finish_and_commit_write_calls", fused_commits);
     g_stats.add("multi_record_commits", multi_commits);
     g_stats.add("held_record_rechecks", double_checks);
     g_stats.add("c09_stall_redraws_not_judged_here", stall_redraws);
